@@ -300,7 +300,7 @@ impl Property for C10Prop {
         "random histories of <= 8 (quick) / <= 20 (thorough) operations over 1-3 live programs; operations: from_instructions, add_instruction (body, placeholder-bearing, or definition), add_instructions, +, +=, clone_without_body_instructions, resolve_placeholders (default and custom), expand_calibrations (both entry points), expand_defgate_sequences (both entry points, all 8 filters over the gate-name pool), simplify, wrap_in_loop (n 0..3, fixed or placeholder target), filter_instructions, dagger, parse(to_quil). Programs come from the shared definition generator, whose calibrations mention qubits (3, 6, 7) that no body instruction uses. After every operation every live program is checked. Non-trivial = the history applies clone-without-body / expansion / simplify / wrap_in_loop / resolve to a program that holds a calibration; distinct by the history's hash."
     }
     fn max_words(&self) -> usize {
-        20 * 90 + 10
+        20 * 120 + 10
     }
     fn cases(&self, tier: Tier) -> u64 {
         tier.pick(30_000, 500_000)
